@@ -4,14 +4,14 @@ import json, vf
 
 def _cls(c):
     e = c["err"]
-    if e in ("deadline", "arbitrary"):
+    if e in ("deadline", "arbitrary", "lookalike"):
         return e
     return "defined-error"
 
 
 def run(ck):
     ck.rule = ("TLC enumerates every (RemoteNode method, origin error, plain | %w-wrapped) over the 18 defined chord errors + "
-               "context.DeadlineExceeded + an arbitrary error and the 21 RPC methods; each case goes through a real twirp "
+               "context.DeadlineExceeded + an arbitrary error + an unknown error whose text merely ends with the text of a retryable one, and the 21 RPC methods; each case goes through a real twirp "
                "server/client pair (chord.Server over a stub node returning the origin error -> generated twirp servers -> "
                "net/http over net.Pipe -> rpc.DynamicChordClient -> chord.RemoteNode); the two-sided observation is read back "
                "into TLC and judged by the predicate Decl; non-trivial = every case (all are distinct inputs)")
